@@ -293,9 +293,16 @@ def check_history(tkey, hist):
     # direction 2: mutate the clone, observe the original
     A2 = deviate.new_module(tkey)
     K = A2.clone()
+    sibling = C.load_bytes(C.save(rv.Synth(A2))).module     # another LOADED object: loaded objects must not share parts
     o2 = observe_module(A2)
+    o_sib = observe_module(sibling)
     for op in hist:
         apply_inplace(K, op)
+    now_sib = observe_module(sibling)
+    d = S.diff(o_sib[0], now_sib[0])
+    if d or now_sib[1] != o_sib[1]:
+        vs.append(C.viol("other-object-changed", key("loaded-sibling-of-the-clone", C.first_diff_key(d) or "bytes"),
+                         {"diff": S.diff_text(d)}, case))
     now = observe_module(A2)
     d = S.diff(o2[0], now[0])
     if d or now[1] != o2[1]:
@@ -404,6 +411,48 @@ def failed_constructors():
     return n, vs
 
 
+# ----------------------------------------------------------------------------- legacy side objects
+def legacy_side_objects():
+    """A Sampler loaded from an OLD-layout file (it replays its raw chunks when saved) stays what it is while other
+    samplers -- modern, old-layout, constructed -- are loaded, cloned and saved around it; and the same old-layout file
+    loaded later in the process gives the same object and bytes as the one loaded first."""
+    import rv.api as rv
+
+    from checks import c16
+
+    vs, n = [], 0
+    variants = c16.legacy_variants()
+    modern = variants["as-is"]
+    for name, data in variants.items():
+        if name == "as-is":
+            continue
+        n += 1
+        case = {"legacy_side": name}
+        B = C.load_bytes(data).module
+        o0 = observe_module(B)
+        # activity around B
+        C.load_bytes(modern).module.clone()
+        x = rv.m.Sampler()
+        x.clone()
+        for other, d2 in variants.items():
+            y = C.load_bytes(d2)
+            C.save(y)
+        o1 = observe_module(B)
+        d = S.diff(o0[0], o1[0])
+        if d or o0[1] != o1[1]:
+            vs.append(C.viol("other-object-changed", {"type": "Sampler", "op": "load-other-samplers", "origin": "old-layout-sampler:" + name,
+                                                      "what": C.first_diff_key(d) or "bytes"},
+                             {"diff": S.diff_text(d), "lens": [len(o0[1]), len(o1[1])]}, case))
+        B2 = C.load_bytes(data).module
+        o2 = observe_module(B2)
+        d = S.diff(o0[0], o2[0])
+        if d or o0[1] != o2[1]:
+            vs.append(C.viol("later-load-of-same-bytes-differs", {"type": "Sampler", "op": "load-other-samplers", "origin": "old-layout-sampler:" + name,
+                                                                  "what": C.first_diff_key(d) or "bytes"},
+                             {"diff": S.diff_text(d), "lens": [len(o0[1]), len(o2[1])]}, case))
+    return n, vs[:6]
+
+
 # ----------------------------------------------------------------------------- containers
 def container_histories():
     return [
@@ -412,6 +461,9 @@ def container_histories():
         [{"c": "pattern"}, {"c": "note"}], [{"c": "attach_none"}], [{"c": "clone_note"}],
         [{"c": "cross_connect"}], [{"c": "connect"}, {"c": "cross_connect"}], [{"c": "cross_attach"}],
         [{"c": "note_clone_transplant"}], [{"c": "note"}, {"c": "note_clone_transplant"}],
+        # cross-project requests against a project that HAS an empty module / pattern position
+        [{"c": "attach_none"}, {"c": "cross_attach"}], [{"c": "attach_none"}, {"c": "cross_connect"}],
+        [{"c": "attach_none"}, {"c": "new_module"}, {"c": "attach_none"}, {"c": "cross_attach"}],
     ]
 
 
@@ -474,6 +526,24 @@ def check_container(hist):
                         attempt()
                     except Exception:
                         pass
+            if c == "cross_attach":
+                # ... then ordinary work on everything A now holds: if a foreign object slipped in, its owner sees it
+                for m_ in list(A.modules):
+                    if m_ is None or m_ is A.output:
+                        continue
+                    try:
+                        A.connect(m_, A.output)
+                        if hasattr(m_, "volume"):
+                            m_.volume = 3
+                        m_.name = "touched"
+                    except Exception:
+                        pass
+                for pt_ in list(A.patterns):
+                    if pt_ is not None and hasattr(pt_, "data"):
+                        try:
+                            pt_.data[0][0].vel = 77
+                        except Exception:
+                            pass
         elif c == "note_clone_transplant":
             # clone() of the SMALLEST object: a note cloned out of each other project's pattern is put (plain item
             # assignment) into A's pattern and then used through its owner-relative accessors -- whatever they resolve
@@ -526,6 +596,8 @@ def check_container(hist):
 
 
 def run_case(case):
+    if "legacy_side" in case:
+        return [v for v in legacy_side_objects()[1] if v["case"] == case]
     if "failed_ctor" in case:
         return [v for v in failed_constructors()[1] if v["case"] == case]
     if "container" in case:
@@ -534,6 +606,13 @@ def run_case(case):
 
 
 def _task(t):
+    if t[0] == "legacy_side":
+        r = C.new_result()
+        n, vs = legacy_side_objects()
+        r["evals"] = n
+        r["violations"] = vs
+        r["sample"] = {"legacy_side": "signature-altered"}
+        return r
     if t[0] == "failed_ctors":
         r = C.new_result()
         n, vs = failed_constructors()
@@ -572,7 +651,7 @@ def run(ctx):
     treeenv.setup()
     for k in deviate.type_keys():
         pristine(k)  # computed in the parent BEFORE the pool forks and before any mutation
-    tasks = [("containers",), ("failed_ctors",)]
+    tasks = [("containers",), ("failed_ctors",), ("legacy_side",)]
     total = 0
     for k in deviate.type_keys():
         devs = deviate.module_devs(k, ctx.seed, spikes="few", opt8="few")
